@@ -28,9 +28,11 @@ CHECKS = {
              "correspondence of the metric functions on the exact lattice; the range claim itself is searched on the "
              "real evaluate() of all 13 task modules with generators biased to degenerate shapes.",
         note="Range theorems exist for every task family (Props/C01_<Task>.lean), incl. the entropy-based scores over the "
-             "reals (Props/C01_Entropy.lean: Shannon entropy in [0, log n], information gain in [0,1], 0 <= MI <= min(H,H'), "
+             "reals (Props/C01_Entropy.lean: Shannon entropy in [0, log n], information gain in [0,1] and a number (not nan) "
+             "whenever the estimated beats are strictly increasing (information_gain_finite_of_increasing), 0 <= MI <= min(H,H'), "
              "NMI, NCE over/under/F and V-measure scores in [0,1], AMI <= 1 via the hypergeometric expectation and "
-             "Vandermonde); binary64 rounding effects stay with correspondence and the oracle. Known findings: Cemgil > 1, standard_FPR precision > 1, pairwise/Rand 0/0, information gain nan for coincident "
+             "Vandermonde; the loop's range is the whole support, weights summing to 1: hyp_weights_sum_one, "
+             "emi_hypergeometric_full_support); binary64 rounding effects stay with correspondence and the oracle. Known findings: Cemgil > 1, standard_FPR precision > 1, pairwise/Rand 0/0, information gain nan for coincident "
              "estimated beats (NMI rounding noise was repaired by clipping MI at 0).",
         design="§5 C01"),
     "C02": dict(
@@ -39,7 +41,9 @@ CHECKS = {
              "per-task perfect-estimate theorems in Props/C02_<Task>.lean; oracle: evaluate(x, copy(x)) on "
              "non-degenerate x for all 13 tasks must give the optimum of every score.",
         note="Non-degeneracy predicates are those of the statement (>= 5 beats, a voiced frame, an in-gamut chord, a "
-             "reference triple for hierarchy, two labels at frame level for NCE). Beat heuristics and entropy scores: "
+             "reference triple for hierarchy - stated on the input by C02_Hierarchy.tmeasure_self_iff / lmeasure_self_iff: "
+             "some query frame has two frames in its window at different LCA / meet depths -, two labels at frame "
+             "level for NCE). Beat heuristics and entropy scores: "
              "oracle + correspondence unless a task theorem is listed in the evidence.",
         design="§5 C02"),
     "C06": dict(
@@ -141,7 +145,9 @@ CHECKS = {
              "events returns exactly the documented list (events inside [t_min, t_max] in order, t_min / t_max added "
              "with the synthetic labels exactly when missing; one-sided versions; range, order, both bounds present; "
              "IndexError cases), boundaries<->intervals are "
-             "mutually inverse on 5-decimal-exact contiguous segmentations; exhaustive small-scope correspondence in "
+             "mutually inverse on 5-decimal-exact contiguous segmentations and, for other times, return the 5-decimal "
+             "rounding of the input whenever rounding keeps the boundaries apart (b2i_i2b_rounded, i2b_b2i_rounded); "
+             "exhaustive small-scope correspondence in "
              "the thorough tier.",
         note="Repaired: zero-length intervals when an interval ends exactly at t_min / starts at t_max. Known findings that remain "
              "(full statements refuted in Lean, partial theorems proved): all intervals before t_min collapse to zero "
@@ -157,8 +163,9 @@ CHECKS = {
              "ValueError / InvalidChordException and nothing else.",
         note="Totality of the metric bodies on valid input (valid => a result, and which exception classes can escape on ANY "
              "input) is proved per task in Props/C14_<Task>.lean for beat, boundary, alignment, pattern, melody, multipitch, "
-             "transcription(+velocity), segment labelling and chord-level scoring, plus onset / tempo / hierarchy in their own "
-             "files; escapes found there (goto_threshold >= 1 -> IndexError, empty pattern occurrences -> ZeroDivisionError, "
+             "transcription(+velocity), segment labelling and chord-level scoring, onset (C14_Onset.f_measure_ok_iff), tempo "
+             "(C14_Tempo.detection_total / detection_errors), key (C14_Key.weighted_score_errors: no KeyError escapes), "
+             "hierarchy in C17; escapes found there (goto_threshold >= 1 -> IndexError, empty pattern occurrences -> ZeroDivisionError, "
              "empty melody series -> IndexError, ...) are stated as refuted full statements with the exact escaping set. NaN and non-array containers are out of scope. Repaired: p_score int(NaN), zero-length crop in segment/chord.evaluate on boundary coincidence, beat.evaluate "
              "flattening 2-D input. Known findings that remain: negative multipitch frequency accepted (repairing it would turn a "
              "baseline XPASS test into XFAIL), one-level hierarchies never validated, chord TypeError on a zero-span reference, "
@@ -173,8 +180,11 @@ CHECKS = {
              "more clusters), NMI = MI/max(sqrt(H H'), 1e-10), NCE over/under = 1 - H2(est|ref)/log2 k_est and "
              "1 - H2(ref|est)/log2 k_ref (0 with fewer than two clusters), V-measure scores = 1 - H(.|.)/H(.) = MI/H(.) "
              "(chain rule MI = H(est) - H(est|ref)), gammaln(k+1) = log k!, the AMI triple loop is the hypergeometric "
-             "expectation sum (k/n) log(nk/(ab)) C(a,k)C(n-a,b-k)/C(n,b) and AMI = (MI-EMI)/(max(H,H')-EMI), with "
-             "the one-cluster/empty early returns; labels are compared case-insensitively; exact correspondence for the rational "
+             "expectation sum (k/n) log(nk/(ab)) C(a,k)C(n-a,b-k)/C(n,b) over the whole support, the weights summing to 1 "
+             "(hypergeometric_weights_sum_one, emi_is_hypergeometric_expectation), and AMI = (MI-EMI)/(max(H,H')-EMI), with "
+             "the one-cluster/empty early returns; labels are compared case-insensitively; the frame sampler is the annotation's "
+             "half-open denotation at the frame times, on annotations with gaps completed by the label of a row ending "
+             "exactly there (frames_with_gaps); exact correspondence for the rational "
              "indices, 1e-9 for the transcendental ones; thorough tier enumerates all pairs of restricted-growth "
              "label sequences up to 8 frames.",
         note="The textbook forms are over the reals (the Real instance of the model's Transc class); the executed "
@@ -184,7 +194,9 @@ CHECKS = {
         text="Lean 4 proofs for all inputs: _count_inversions = #{(x,y) | x >= y}, _compare_frame_rankings = "
              "(#triples - #correct, #triples) for both transitive settings, the window slice minus the query is the "
              "window, _gauc equals the brute-force triplet definition and lies in [0,1], lca/meet specs, "
-             "tmeasure/lmeasure equal the definition with roles exchanged for precision, parameter rejections; "
+             "tmeasure/lmeasure equal the definition with roles exchanged for precision, parameter rejections, the "
+             "self-score is (1,1,1) iff some query frame has two window frames at related LCA / meet depths "
+             "(C02_Hierarchy.tmeasure_self_iff, lmeasure_self_iff); "
              "exact rational correspondence; brute-force triple enumeration oracle.",
         note="The finding (tmeasure / lmeasure raised IndexError when a query window holds exactly one frame) was repaired; the "
              "totality theorems now hold without exception.",
@@ -201,7 +213,11 @@ CHECKS = {
              "the squared error, is homogeneous in the estimate, invariant under rescaling references and idempotent "
              "on the span, so that decomposition / scale-invariance / perfect-estimate theorems hold for the concrete "
              "model with NO hypothesis on the projection, end to end for every output of the exact bss_eval_sources "
-             "incl. the permutation; _project_images is _project channel by channel. The exact model is tied to the "
+             "incl. the permutation; normal equations are always consistent and the lstsq fall-back (elimination with free "
+             "unknowns set to 0) is total and least-squares for every input (solveAny_normal_equations, projectAny_total) and "
+             "returns the signal of any exact solution, lstsq's minimum-norm one included (projectAny_eq_of_solution); the "
+             "product-of-ratios argmax of the model is the first argmax of the mean SIR in dB (bestPermMul_is_first_argmax_db); "
+             "_project_images is _project channel by channel. The exact model is tied to the "
              "real _project, _project_images, _bss_decomp_mtifilt(_images), the criteria and bss_eval_sources/_images "
              "(forced filter length 1..3, cached-G path, lstsq fall-back) by correspondence at 1e-9.",
         note="PARTIAL in one respect: that the FFT / Toeplitz / solve / fftconvolve pipeline computes the exact projection "
@@ -214,7 +230,8 @@ CHECKS = {
     "C20": dict(
         text="Lean 4 proofs over List Char with abstract token converters, for files of any length: split/join round "
              "trip (last field may contain the delimiter), load_delimited returns the written rows in file order "
-             "skipping column-0 comment lines, wrong column count / unparsable number raise ValueError naming the "
+             "skipping column-0 comment lines (typed corollaries load_<wrapper>_roundtrip for the six delimited wrappers), "
+             "wrong column count / unparsable number raise ValueError naming the "
              "1-based row, blank lines are malformed rows, key/tempo single-line and weight-range rules, ragged and "
              "pattern state machines; loaders compared bit-for-bit (struct.pack) from StringIO, path and open file.",
         note="float(str)/repr(float) and Python's re are trusted; warnings are checked by the oracle only. The two findings (load_ragged_time_series(header=True) did not skip the header; load_patterns raised IndexError on a "
